@@ -35,9 +35,14 @@ ASSUMPTIONS = ["thresholds are scaled down (the code has no size-dependent branc
 
 def validate(case):
     b = case.get("beh")
-    if not isinstance(b, dict) or b.get("status") != "200 OK" or b.get("mode") not in ("list", "gen", "write", "purelist"):
+    if not isinstance(b, dict) or b.get("status") != "200 OK" or b.get("mode") not in ("list", "gen", "write", "purelist", "fw"):
         raise C.CaseInvalid("beh")
-    if not isinstance(b.get("chunks"), list) or not b["chunks"] or any(not isinstance(c, str) or len(c) > 3000 for c in b["chunks"]):
+    if b.get("mode") == "fw":
+        fw = b.get("fw")
+        if not isinstance(fw, dict) or not isinstance(fw.get("len"), int) or not (1 <= fw["len"] <= 5000) or fw.get("start", 0) != 0 or \
+                not isinstance(fw.get("block", 64), int) or fw.get("block", 64) < 1 or b.get("chunks") or "declared_cl" in b:
+            raise C.CaseInvalid("fw")
+    elif not isinstance(b.get("chunks"), list) or not b["chunks"] or any(not isinstance(c, str) or len(c) > 3000 for c in b["chunks"]):
         raise C.CaseInvalid("chunks")
     if "declared_cl" in b and b["declared_cl"] != sum(len(c) for c in b["chunks"]):
         raise C.CaseInvalid("cl")
@@ -175,8 +180,13 @@ def case_strategy():
         sb = draw(st.sampled_from([1, 1, 10, 50]))
         sizes = [1, max(1, wm - 1), max(1, wm), wm + 1, 2 * wm + 5, 7, 64]
         chunks = draw(st.lists(st.sampled_from(sizes).map(lambda n: "q" * n), min_size=1, max_size=6))
-        beh = {"status": "200 OK", "mode": draw(st.sampled_from(["gen", "gen", "write", "list"])), "chunks": chunks}
-        if draw(st.booleans()):
+        beh = {"status": "200 OK", "mode": draw(st.sampled_from(["gen", "gen", "write", "list", "fw"])), "chunks": chunks}
+        if beh["mode"] == "fw":
+            # wsgi.file_wrapper: the file is queued as an output buffer of its own behind whatever is still unsent
+            beh = {"status": "200 OK", "mode": "fw", "chunks": [],
+                   "fw": {"seekable": draw(st.booleans()), "len": draw(st.sampled_from([1, wm + 1, 2 * wm + 5, 64, 300])), "start": 0, "closeable": True,
+                          "block": draw(st.sampled_from([8, 64, 8192]))}}
+        elif draw(st.booleans()):
             beh["declared_cl"] = sum(len(c) for c in chunks)
         adj = {"outbuf_high_watermark": wm, "send_bytes": sb}
         if draw(st.integers(0, 3)) == 0:
@@ -184,7 +194,7 @@ def case_strategy():
         if draw(st.booleans()):
             adj["asyncore_use_poll"] = True
         pat = draw(st.sampled_from(["steady", "steady", "stall-resume", "stall-resume", "reset", "stall-forever", "send-fault", "send-fault"]))
-        total = sum(len(c) for c in chunks) + 120
+        total = (beh["fw"]["len"] if beh["mode"] == "fw" else sum(len(c) for c in chunks)) + 120
         case = {"beh": beh, "adj": adj, "sndbuf": draw(st.sampled_from([4, 16, 64, 1 << 20])), "capacity": draw(st.sampled_from([5, 16, 50, 300])),
                 "drain": draw(st.sampled_from(["all", 3, 16])), "reqs": draw(st.sampled_from([1, 1, 2])),
                 "gran": draw(st.sampled_from(["sync", "sync", "line"])), "schedule": draw(S.schedule_strategy())}
@@ -218,6 +228,13 @@ FIXED = [
     {"beh": G3, "adj": {"outbuf_high_watermark": 0, "send_bytes": 1}, "sndbuf": 64, "capacity": 20, "drain": "all"},
     {"beh": G3, "adj": {"outbuf_high_watermark": 20, "send_bytes": 50}, "sndbuf": 16, "capacity": 16, "drain": 8},
     {"beh": W3, "adj": {"outbuf_high_watermark": 100, "send_bytes": 10, "outbuf_overflow": 16}, "sndbuf": 32, "capacity": 24, "drain": 16, "stop_after": 100, "resume": True, "reqs": 2},
+]
+FW = {"status": "200 OK", "mode": "fw", "chunks": [], "fw": {"seekable": True, "len": 200, "start": 0, "closeable": True, "block": 64}}
+FWN = {"status": "200 OK", "mode": "fw", "chunks": [], "fw": {"seekable": False, "len": 150, "start": 0, "closeable": True, "block": 32}}
+FIXED += [
+    {"beh": FW, "adj": {"outbuf_high_watermark": 20, "send_bytes": 1}, "sndbuf": 16, "capacity": 16, "drain": 8, "reqs": 2},
+    {"beh": FW, "adj": {"outbuf_high_watermark": 100, "send_bytes": 50}, "sndbuf": 64, "capacity": 40, "drain": "all", "stop_after": 30, "resume": True, "reqs": 2},
+    {"beh": FWN, "adj": {"outbuf_high_watermark": 20, "send_bytes": 1}, "sndbuf": 16, "capacity": 16, "drain": 8, "reset_after": 100},
 ]
 QUICK = (1, 1200, 300, 300, 12)
 
